@@ -25,6 +25,12 @@ DEV0 = {"Dev_UPlaceholder": False, "Dev_CtlAccepted": False, "Dev_VtFfSpace": Fa
 DEFAULT_LIMITS = (100, 10000, 10000, 1000000)          # depthMax arrayItemsMax membersMax stringLengthMax
 TLC_SLOTS = threading.Semaphore(7)                     # concurrent JVMs
 
+
+def jvm(xmx):
+    """Feed() recurses once per byte of a serializer output / mutated input: give the evaluator threads a deep stack"""
+    return {"JAVA_TOOL_OPTIONS": "-Xss512m -Xmx%s -DTLA-Library=%s -Dtlc2.tool.queue.IStateQueue=StateDeque" % (
+        xmx, os.pathsep.join([os.path.join(vf.SPEC, "common"), SPECDIR]))}
+
 STR_PIECES = ["Q", "X", "SL", "DEL", "EQ", "EB", "ES", "Eb", "Ef", "En", "Er", "Et", "uA", "ue9", "uE9", "u20ac", "u0000",
               "u001f", "u007f", "u0080", "u07ff", "u0800", "ud7ff", "ue000", "uffff", "uPair", "uPairLo", "uPairHi", "uHi",
               "uLo", "Re9", "Reur", "Remo", "C00", "C01", "C1F", "HT", "LF", "VT", "SP", "BX", "BA", "BU2", "BUg", "BUU",
@@ -175,15 +181,38 @@ def parse_canon(c):
     return v
 
 
+def py_num_canon(pv):
+    """the canonical number form (JsonEval) of what Python's decoder yields: an int that fits 64 bits keeps its digits,
+    anything else is the shortest decimal that identifies the nearest double"""
+    if isinstance(pv, int) and -(1 << 63) <= pv < (1 << 63):
+        if pv == 0:
+            return "0"
+        digs = str(abs(pv))
+        m = digs.rstrip("0")
+        return ("-" if pv < 0 else "") + m + "e" + str(len(digs) - len(m))
+    try:
+        f = float(pv)
+    except OverflowError:
+        f = float("inf") if pv > 0 else float("-inf")
+    if f != f:
+        return "nan"
+    if f in (float("inf"), float("-inf")):
+        return "inf" if f > 0 else "-inf"
+    if f == 0:
+        return "0"
+    t = Decimal(repr(f)).as_tuple()
+    digs = "".join(map(str, t.digits)).lstrip("0")
+    m = digs.rstrip("0")
+    return ("-" if t.sign else "") + m + "e" + str(t.exponent + len(digs) - len(m))
+
+
 def same_value(cv, pv):
     if isinstance(cv, tuple) and cv[0] == "#":
         if isinstance(pv, bool) or not isinstance(pv, (int, float)):
             return False
         if cv[1] == "?":
             return True
-        if cv[1] in ("inf", "-inf"):
-            return float(pv) == float(cv[1])
-        return float(Decimal(cv[1])) == float(pv)
+        return cv[1] == py_num_canon(pv)
     if isinstance(cv, tuple) and cv[0] == "s":
         return isinstance(pv, str) and pv.encode("utf-8", "surrogatepass") == cv[1]
     if isinstance(cv, list):
@@ -209,6 +238,42 @@ def cross_check(name, cases):
         if not ok:
             raise vf.Infra("JsonEval.tla disagrees with Python's json on %r (%s): spec %s %s, python %s %r" % (
                 c.bytes, c.lex, c.cls, c.val, rc, rv))
+
+
+def batch_eval(ck, inputs):
+    """Eval(bytes) of JsonEval for byte strings the generator did not produce -> list of Case"""
+    d = os.path.join(ck.work, "batch")
+    os.makedirs(d, exist_ok=True)
+    inp, out = os.path.join(d, "in.ndjson"), os.path.join(d, "out.csv")
+    if os.path.exists(out):
+        os.remove(out)
+    with open(inp, "w") as f:
+        for b in inputs:
+            f.write(json.dumps({"b": list(b)}) + "\n")
+    cfg = os.path.join(d, "JsonBatch.cfg")
+    consts = dict(DEV0)
+    consts.update({"InFile": '"%s"' % inp, "OutFile": '"%s"' % out})
+    vf.write_cfg(cfg, constants=consts, invariants=["Out"])
+    with TLC_SLOTS:
+        r = vf.run_tlc(os.path.join(SPECDIR, "JsonBatch.tla"), cfg, tag="C13_batch", workers=4, timeout=1500, env=jvm("4g"))
+    if r.error or r.violated:
+        raise vf.Infra("JsonBatch.tla failed: %s %s" % (r.violated, r.error))
+    res = [None] * len(inputs)
+    for ln in open(out):
+        p = ln.rstrip("\n").split("|")
+        c = Case()
+        k = int(p[0]) - 1
+        c.lex, c.bytes, c.cls, c.val = "(mutation)", inputs[k], p[1].strip('"'), p[2][1:-1]
+        c.exact, c.finite = p[3] == "TRUE", p[4] == "TRUE"
+        c.m = tuple(int(x) for x in p[5:12])
+        c.nstr = int(p[12])
+        c.cfg = "mutation"
+        res[k] = c
+    if any(x is None for x in res):
+        raise vf.Infra("JsonBatch.tla evaluated %d of %d inputs" % (sum(x is not None for x in res), len(inputs)))
+    ck.states += r.distinct
+    ck.transitions += r.generated
+    return res
 
 
 # ------------------------------------------------------------------------------------------------ driver + oracle
@@ -270,7 +335,7 @@ def merge_and_validate(ck, tag, opath, lines, meta, chunk=30000, cap=40, consts=
                     f.write(json.dumps(e) + "\n")
             with TLC_SLOTS:
                 v = vf.validate_trace(os.path.join(SPECDIR, "JsonTrace.tla"), cfg, tp, tag="C13_val_%s_%d" % (tag, i),
-                                      xmx="3g", timeout=1500)
+                                      xmx="3g", timeout=1500, env=jvm("3g"))
             if v.error:
                 errs = [x for x in v.out.splitlines() if x.startswith("Error") or "evaluat" in x or "Attempted" in x]
                 raise vf.Infra("trace validation error (%s, trace kept: %s): %s\n%s" % (tag, tp, "\n".join(errs[:12]), v.error[-600:]))
@@ -282,7 +347,7 @@ def merge_and_validate(ck, tag, opath, lines, meta, chunk=30000, cap=40, consts=
             if v.accepted:
                 break
             blocked = evs[start + v.maxl - 1]
-            bad.append((blocked, "(further) " + "event breaks a clause of JsonTrace"))
+            bad.append((blocked, "more than %d events break a clause in one chunk (first of the rest)" % cap))
             start = start + v.maxl
         return bad, len(evs)
     bad = []
@@ -297,25 +362,37 @@ def interesting(c):
 
 
 def report(ck, tag, bad, crashes, meta_text):
-    """group the rejected events and report each group once"""
-    groups = {}
+    """collect; final_report() groups by the clause that failed and reports each group once"""
+    acc = ck.__dict__.setdefault("_c13", {"bad": [], "crash": []})
     for e, why in bad:
-        key = (why, e["e"], e.get("opt", ""))
-        groups.setdefault(key, []).append(e)
-    for (why, kind, opt), evs in sorted(groups.items()):
-        ex = evs[:3]
-        name = re.sub(r"\W+", "_", "%s_%s_%s%s" % (tag, kind, why, opt))[:80]
-        rp = ck.save_replay(name, {"events.json": evs[:200], "why.txt": "%s: %s (%d events)\n" % (kind, why, len(evs)),
-                                   "cases.txt": "\n".join(meta_text(e) for e in evs[:200]) + "\n"})
-        ck.classify({"spec": "JsonTrace", "clause": why, "event": kind},
-                    "%s [%s]: %s — %d event(s), e.g. %s" % (kind, tag, why, len(evs), "; ".join(meta_text(e) for e in ex)), rp)
+        acc["bad"].append((tag, meta_text(e), e, why))
+    for line, kind in crashes:
+        acc["crash"].append((tag, line, kind))
+
+
+def final_report(ck):
+    acc = ck.__dict__.get("_c13", {"bad": [], "crash": []})
+    groups = {}
+    for tag, text, e, why in acc["bad"]:
+        groups.setdefault(why, []).append((tag, text, e))
+    for why, items in sorted(groups.items()):
+        tags = sorted({t for t, _, _ in items})
+        name = re.sub(r"\W+", "_", why)[:70]
+        rp = ck.save_replay(name, {"events.json": [e for _, _, e in items[:300]],
+                                   "why.txt": "%s (%d events; stages: %s)\n" % (why, len(items), ", ".join(tags)),
+                                   "cases.txt": "\n".join(t for _, t, _ in items[:300]) + "\n"})
+        ck.classify({"spec": "JsonTrace", "clause": why},
+                    "%s — %d event(s) in %s, e.g. %s" % (why, len(items), ", ".join(tags), "; ".join(t for _, t, _ in items[:3])), rp)
+    crashes = acc["crash"]
     if crashes:
         # re-run the first few alone to confirm and to capture the sanitizer report
         confirmed = []
-        for line, kind in crashes[:5]:
+        for tag, line, kind in crashes[:5]:
             cp = os.path.join(ck.work, "crash1.cases")
             op = os.path.join(ck.work, "crash1.ndjson")
-            open(cp, "w").write(line + "\n")
+            w = line.split("|")[0].split()
+            w[1] = "0"
+            open(cp, "w").write(" ".join(w) + "\n")
             vf.run_driver("drv_json.asan", ["run", cp, op, 1, 1], timeout=120, env={"ASAN_OPTIONS": "detect_leaks=0"})
             again = any(json.loads(x)["e"] in ("Crashed", "Hung") for x in open(op))
             err = ""
@@ -325,14 +402,15 @@ def report(ck, tag, bad, crashes, meta_text):
             if again:
                 confirmed.append((line, kind, err))
         if not confirmed:
-            raise vf.Infra("%d crash(es)/hang(s) of the driver did not repeat when re-run alone: %s" % (len(crashes), crashes[0][0]))
+            raise vf.Infra("%d crash(es)/hang(s) of the driver did not repeat when re-run alone: %s" % (len(crashes), crashes[0][1]))
         line, kind, err = confirmed[0]
         m = re.search(r"SUMMARY: (.*)", err)
-        rp = ck.save_replay("%s_%s" % (tag, kind.lower()), {"cases.txt": "\n".join(l for l, _ in crashes[:200]) + "\n", "sanitizer.txt": err})
+        rp = ck.save_replay("sanitizer_or_hang", {"cases.txt": "\n".join(l for _, l, _ in crashes[:300]) + "\n", "sanitizer.txt": err})
         ck.classify({"spec": "JsonTrace", "clause": "undefined behaviour" if kind == "Crashed" else "termination"},
-                    "%s on %d input(s) [%s], e.g. input hex %s: %s" % (
-                        "sanitizer abort / crash" if kind == "Crashed" else "parser does not return", len(crashes), tag,
-                        line.split()[-1], m.group(1) if m else "see sanitizer.txt"), rp)
+                    "%s on %d input(s) in %s, e.g. input hex %s: %s" % (
+                        "sanitizer abort / crash" if kind == "Crashed" else "parser does not return", len(crashes),
+                        ", ".join(sorted({t for t, _, _ in crashes})), line.split("|")[0].split()[-1],
+                        m.group(1) if m else "see sanitizer.txt"), rp)
 
 
 def mutate(rng, bs):
@@ -488,9 +566,15 @@ def run(ck):
         m = mutate(rng, rng.choice(src).bytes)
         if len(m) <= 48:
             muts.add(m)
-    for m in sorted(muts):
-        add("bd", DEFAULT_LIMITS, m, None, "mutation")
-        nontrivial.add(m)
+    mcases = batch_eval(ck, sorted(muts))
+    cross_check("mutations", mcases)
+    mcls = {"yes": 0, "no": 0, "either": 0}
+    for c in mcases:
+        add("d", DEFAULT_LIMITS, c.bytes, c.model(), "mutation")
+        nontrivial.add(c.bytes)
+        mcls[c.cls] += 1
+    if mcls["yes"] == 0 or mcls["no"] == 0:
+        raise vf.Infra("mutations are vacuous: %s" % mcls)
     # (c) values built through the API
     vals = sorted({c.val for c in pool if c.exact and c.finite and buildable(c.val)}, key=lambda v: (len(v), v))
     if not thorough and len(vals) > 3000:
@@ -505,8 +589,8 @@ def run(ck):
     bad, n, crashes = merge_and_validate(ck, "derived", opath, lines, meta)
     ck.evaluations += n
     ck.traces += len(lines)
-    ck.note("derived: %d limit settings on %d valid texts, %d mutated inputs, %d values built through the API: %d events, %d rejected, %d crashed/hung" % (
-        nlim, len(lim_src), len(muts), len(vals), n, len(bad), len(crashes)))
+    ck.note("derived: %d limit settings on %d valid texts, %d mutated inputs %s, %d values built through the API: %d events, %d rejected, %d crashed/hung" % (
+        nlim, len(lim_src), len(muts), mcls, len(vals), n, len(bad), len(crashes)))
     report(ck, "derived", bad, crashes, lambda e: lines[e["id"]] if e.get("id") is not None and e["id"] < len(lines) else json.dumps(e)[:200])
     allbad += bad
     ck.sample({"kind": "limit case", "line": lines[0], "model": meta.get(0)})
@@ -534,6 +618,7 @@ def run(ck):
     ck.nontrivial = len(nontrivial)
     ck.note("total: %d generated texts (%d valid, %d invalid, %d unspecified), %d distinct non-trivial inputs" % (
         stats["cases"], stats["yes"], stats["no"], stats["either"], len(nontrivial)))
+    final_report(ck)
     selftest(ck, pool)
 
 
@@ -570,7 +655,7 @@ def selftest(ck, pool):
         cc = dict(DEV0); cc.update(consts or {}); cc["Cap"] = cap
         vf.write_cfg(cfg, constants=cc, invariants=["BadOut", "TraceChk"], postcondition="Post")
         with TLC_SLOTS:
-            v = vf.validate_trace(os.path.join(SPECDIR, "JsonTrace.tla"), cfg, tp, tag="C13_self_" + name, xmx="2g")
+            v = vf.validate_trace(os.path.join(SPECDIR, "JsonTrace.tla"), cfg, tp, tag="C13_self_" + name, xmx="2g", env=jvm("2g"))
         if v.error:
             raise vf.Infra("self-test validation error: " + v.error)
         nbad = len(set(re.findall(r'<<(\d+), \\"', "\n".join(x for x in v.out.splitlines() if "BADLINES" in x))))
@@ -613,3 +698,4 @@ def replay(ck, path):
     bad, n, crashes = merge_and_validate(ck, "replay", opath, lines, {})
     ck.evaluations += n
     report(ck, "replay", bad, crashes, lambda e: lines[e["id"]] if e.get("id") is not None else json.dumps(e)[:200])
+    final_report(ck)
